@@ -76,18 +76,24 @@ def run(ctx):
     gen = lambda cfg, **kw: (lambda: ctx.tlc_gen("BitswapNet", "GenBitswapNet.tla", cfg, timeout=1500, **kw))
     tasks = {
         "build": lambda: ctx.go_build(PKG, HARNESS),
-        "fixLocal": mc("MCProtoLocal.cfg"), "fixLate": mc("MCProtoLate.cfg"), "fixExh": mc("MCProtoExhaust.cfg"),
-        "abLocal": mc("MCProtoLocalAsBuilt.cfg", expect_violation=True),
-        "abTwo": mc("MCProtoTwoAsBuilt.cfg", expect_violation=True),
-        "gSess": gen("GenBitswapNetSess.cfg"), "gLocal": gen("GenBitswapNetLocal.cfg"), "gGen": gen("GenBitswapNet.cfg"),
+        # repaired design: contract invariants + Cleanup at quiescence (quick) / + liveness under fairness (thorough)
+        "fixTwo": mc("MCProtoTwo.cfg" if q else "MCProtoTwoLive.cfg"),
+        "fixLate": mc("MCProtoLate.cfg" if q else "MCProtoLateLive.cfg"),
+        "fixExh": mc("MCProtoExhaust.cfg" if q else "MCProtoExhaustLive.cfg"),
+        # as-built controls: must fail
+        "abLate": mc("MCProtoLateAsBuilt.cfg", expect_violation=True),
+        "abExh": mc("MCProtoExhaustAsBuilt.cfg", expect_violation=True),
+        "gSess": gen("GenBitswapNetSess.cfg" if q else "GenBitswapNetSessD6.cfg"),
+        "gLocal": gen("GenBitswapNetLocal.cfg" if q else "GenBitswapNetLocalD5.cfg"),
+        "gGen": gen("GenBitswapNet.cfg" if q else "GenBitswapNetD3.cfg"),
     }
     if not q:
         tasks.update({
-            "fixShared": mc("MCProtoSharedLive.cfg"), "fixTwo": mc("MCProtoTwoLive.cfg"), "fixLocalL": mc("MCProtoLocalLive.cfg"),
-            "fixLateL": mc("MCProtoLateLive.cfg"), "fixExhL": mc("MCProtoExhaustLive.cfg"),
+            "fixShared": mc("MCProtoSharedLive.cfg"), "fixLocal": mc("MCProtoLocalLive.cfg"),
             "abShared": mc("MCProtoSharedAsBuiltLive.cfg", expect_violation=True),
-            "abExh": mc("MCProtoExhaustAsBuilt.cfg", expect_violation=True),
-            "abLate": mc("MCProtoLateAsBuilt.cfg", expect_violation=True),
+            "abLocal": mc("MCProtoLocalAsBuilt.cfg", expect_violation=True),
+            "abTwo": mc("MCProtoTwoAsBuilt.cfg", expect_violation=True),
+            # with the three proposed repairs only (A, D, E): what stays open must still fail
             "adeShared": mc("MCProtoSharedADE.cfg", expect_violation=True),
             "adeTwo": mc("MCProtoTwoADE.cfg", expect_violation=True),
             "adeLate": mc("MCProtoLateADE.cfg", expect_violation=True),
@@ -95,8 +101,6 @@ def run(ctx):
             "gDeep": gen("GenBitswapNetDeep.cfg"),
             "gSim": gen("GenBitswapNetSim.cfg", simulate=400, depth=9 * 12 + 1),
         })
-    else:
-        tasks["fixShared"] = mc("MCProtoShared.cfg")
     res = _par(tasks)
     # controls: the as-built model must violate what the recorded findings say it violates
     want = {"abLocal": "Cleanup", "abTwo": "Cleanup", "abExh": "Cleanup", "abLate": "Cleanup", "adeTwo": "Cleanup",
@@ -115,9 +119,9 @@ def run(ctx):
             return lst
         return ctx.rng.sample(lst, n)
     if q:
-        scripts = pick(res["gSess"], 45) + pick(res["gLocal"], 35) + pick(res["gGen"], 50)
+        scripts = pick(res["gSess"], 40) + pick(res["gLocal"], 40) + pick(res["gGen"], 40)
     else:
-        scripts = pick(res["gSess"], 521) + pick(res["gLocal"], 190) + pick(res["gGen"], 600) + pick(res["gDeep"], 600) + \
+        scripts = pick(res["gSess"], 600) + pick(res["gLocal"], 200) + pick(res["gGen"], 500) + pick(res["gDeep"], 500) + \
                   pick(res["gSim"], 400)
         ctx.cov["exhaustive"] = True
     def nontrivial_script(b):
